@@ -1427,7 +1427,7 @@ def _is_file_like(maybefile):
     return hasattr(maybefile, 'write')
 
 def _make_c_or_py_source(ffi, module_name, preamble, target_file, verbose):
-    if verbose:
+    if verbose and not _is_file_like(target_file):
         print("generating %s" % (target_file,))
     recompiler = Recompiler(ffi, module_name,
                             target_is_python=(preamble is None))
